@@ -2425,6 +2425,10 @@ class x86_mn(x86_mn_base):
                 if rmr in dibs and not x86_afs.imm in modr and modr[x86_afs.ad] == False:
                     log.info("No register should be encoded here")
                     return None
+                if m.modifs[sd] is not None and modr[x86_afs.ad] == False:
+                    # x87 /digit rows are the memory forms; the register
+                    # encodings (mod == 3) have their own rows
+                    return None
             #+reg
             elif afs == reg:
                 mafs = dict(x86mndb.get_afs_re(c&(0xFF^mask_reg)))
